@@ -16,6 +16,7 @@ import random as _random
 from hypothesis import strategies as st
 
 from vf.core import hyp, pool
+from vf.core.lib import library_exceptions_are_findings as _guard
 from vf.core.stats import Finding, Stats
 from vf.ref import tls as R
 
@@ -999,6 +1000,7 @@ def _edited_compose(model, locus):
 _edited_compose.count = 0
 
 
+@_guard
 def check_case(case):
     return evaluate(case)[0]
 
